@@ -49,6 +49,7 @@ type World struct {
 
 	protectedFields map[string]bool
 	allFuncs        map[string]*ssa.Function
+	opqSig          map[string]string
 }
 
 func shortPkg(path string) string {
@@ -65,7 +66,7 @@ func LoadWorld(repo string, specDirs []string) (*World, error) {
 	w := &World{repo: repo, declared: map[string]bool{}, contracts: map[string]*Contract{}, preds: map[string]*Pred{},
 		ufs: map[string]*UF{}, ghosts: map[string]*GhostField{}, heapSort: map[string]string{}, funcs: map[string]*ssa.Function{},
 		funcKeys: map[*ssa.Function]string{}, modsets: map[*ssa.Function]map[string]bool{}, spkgs: map[string]*ssa.Package{},
-		tpkgs: map[string]*types.Package{}, typeIDs: map[string]int{}, strLits: map[string]bool{}, globalPkg: map[*Clause]string{}}
+		tpkgs: map[string]*types.Package{}, typeIDs: map[string]int{}, strLits: map[string]bool{}, globalPkg: map[*Clause]string{}, opqSig: map[string]string{}}
 	cfg := &packages.Config{Mode: packages.LoadAllSyntax, Dir: repo, BuildFlags: []string{"-tags=verif"}, Tests: false}
 	pkgs, err := packages.Load(cfg, ".", "./internal/syntax", "./internal/tree", "./internal/trace", "./types", "./header")
 	if err != nil {
@@ -194,7 +195,7 @@ func LoadWorld(repo string, specDirs []string) (*World, error) {
 func (w *World) addSpec(sf *SpecFile) error {
 	for _, c := range sf.Contracts {
 		k := c.Key
-		if sf.Pkg != "extern" {
+		if sf.Pkg != "extern" && !strings.HasPrefix(c.Key, sf.Pkg+".") {
 			k = sf.Pkg + "." + c.Key
 		}
 		if _, dup := w.contracts[k]; dup {
@@ -217,6 +218,17 @@ func (w *World) addSpec(sf *SpecFile) error {
 			t = sf.Pkg + "." + t
 		}
 		w.ghosts[t+"."+g.Field] = g
+		srt := g.Sort
+		if strings.HasPrefix(srt, "`") {
+			srt = strings.Trim(srt, "`")
+		} else {
+			ft, err := w.resolveType(g.Pkg, g.Sort)
+			if err != nil {
+				return err
+			}
+			srt = w.sortOf(ft)
+		}
+		w.heapSort["F:"+t+"."+g.Field] = fmt.Sprintf("(Array Int %s)", srt)
 	}
 	for _, g := range sf.Globals {
 		w.globals = append(w.globals, g)
@@ -622,4 +634,13 @@ func (w *World) findFunc(key string) *ssa.Function {
 		}
 	}
 	return w.allFuncs[key]
+}
+
+// elemTerm: element i of slice s in slice-heap h, through an uninterpreted accessor with a definitional axiom,
+// so that quantified facts about slice elements have a trigger free of arithmetic.
+func (w *World) elemTerm(ss, es, h, s, i string) string {
+	fn := "elem_" + ss
+	w.decl("fn:"+fn, fmt.Sprintf("(declare-fun %s ((Array Int (Array Int %s)) %s Int) %s)\n(assert (forall ((h (Array Int (Array Int %s))) (s %s) (i Int)) (! (= (%s h s i) (select (select h (arr_%s s)) (+ (off_%s s) i))) :pattern ((%s h s i)))))",
+		fn, es, ss, es, es, ss, fn, ss, ss, fn))
+	return fmt.Sprintf("(%s %s %s %s)", fn, h, s, i)
 }
